@@ -66,13 +66,11 @@ var removedBytes = func() []byte {
 
 type subst map[string]string
 
-func newSubst(rng *vh.Rng, identity bool, titleLen int) subst {
+func newSubst(rng *vh.Rng, identity bool, toks []string) subst {
 	s := subst{"NL": "\n"}
-	// symbolic header numbers (C03): values at the uint32 / uint64 boundaries; H32m wraps titleLen+1+textLen
-	s["H32m"] = strconv.FormatUint(uint64(math.MaxUint32)-uint64(titleLen)-uint64(rng.Intn(3)), 10)
-	s["H32"] = []string{"4294967295", "4294967296", "4294967297"}[rng.Intn(3)]
-	s["H63"] = []string{"9223372036854775807", "9223372036854775808"}[rng.Intn(2)]
-	s["H64"] = []string{"18446744073709551615", "18446744073709551616", "99999999999999999999999"}[rng.Intn(3)]
+	for k, v := range vh.HugeTokens(toks, rng) { // symbolic header numbers (C03)
+		s[k] = v
+	}
 	if identity {
 		return s
 	}
@@ -366,21 +364,6 @@ func judge(c *tcase, s subst, o outcome, ns string) (string, string) {
 	return "", ""
 }
 
-func titleBytes(c *tcase) int {
-	// bytes between "}:" and the end, used to aim the H32m token at the uint32 wrap
-	n := 0
-	seen := false
-	for i, t := range c.In {
-		if seen {
-			n += len(t)
-		}
-		if t == ":" && i > 0 && c.In[i-1] == "}" {
-			seen = true
-		}
-	}
-	return n
-}
-
 func TestCases(t *testing.T) {
 	path := os.Getenv("VERIF_CASES")
 	if path == "" {
@@ -399,12 +382,11 @@ func TestCases(t *testing.T) {
 			return fmt.Errorf("case %d: %v", idx, err)
 		}
 		rng := vh.NewRng(seed, idx)
-		tb := titleBytes(&c)
-		id := newSubst(rng, true, tb)
+		id := newSubst(rng, true, c.In)
 		for v := 0; v < variants; v++ {
 			s := id
 			if v > 0 {
-				s = newSubst(rng, false, tb)
+				s = newSubst(rng, false, c.In)
 				if !s.sound(&c, id) {
 					s = id
 				}
